@@ -29,7 +29,7 @@ def run(ck, models, tier):
                 continue
             rn = short(r.root)
             cname = ("/" + r.cls[0]) if r.cls else ""
-            if r.err is not None:
+            if r.err is not None and not (r.range_problem is not None and r.sim is not None):
                 ck.ob("R13.1", "%s/%s%s/%s/undecodable" % (tm.arch, rn, cname, r.role), tm.target, False,
                       "%s bytes cannot be decoded: %s" % (r.role, r.err), where(r.ev))
                 continue
